@@ -1,4 +1,6 @@
 import PV.Proofs.CoreComp
+import PV.Model.Flatten
+import PV.Props.C01
 /-!
 # C01 (core) — the model code generator is correct on the IC10 machine
 
@@ -66,6 +68,47 @@ theorem compile_correct_running (sem : Sem V) (env : Env V) (lit : Nat → V) (h
   obtain ⟨k, pc, hle, hk⟩ := (sim sem env lit hlit (comp lit p 0) mem fuel p hneg 0 σ (codeAt_self _)).2 σ' h
   exact ⟨k, hle, by rw [hk]; rfl, by rw [hk]; rfl, by rw [hk]; rfl⟩
 
+/-! ### the hypothesis `NegOk` for what the real tables produce -/
+
+theorem pairsOk_sound (sem : Sem V) (pairs : List (String × String))
+    (hp : ∀ p ∈ pairs, ∀ x y, sem.cond p.2 [x, y] = !sem.cond p.1 [x, y]) :
+    ∀ s : Stmt V, pairsOk pairs s = true → NegOk sem s := by
+  intro s
+  induction s with
+  | seq p q ihp ihq =>
+    intro h; simp only [pairsOk, Bool.and_eq_true] at h; exact ⟨ihp h.1, ihq h.2⟩
+  | ite c neg a b p q ihp ihq =>
+    intro h; simp only [pairsOk, Bool.and_eq_true, List.contains_iff_mem] at h
+    exact ⟨hp (c, neg) h.1.1, ihp h.1.2, ihq h.2⟩
+  | ifThen c neg a b p ihp =>
+    intro h; simp only [pairsOk, Bool.and_eq_true, List.contains_iff_mem] at h
+    exact ⟨hp (c, neg) h.1, ihp h.2⟩
+  | «while» c neg a b body ih =>
+    intro h; simp only [pairsOk, Bool.and_eq_true, List.contains_iff_mem] at h
+    exact ⟨hp (c, neg) h.1, ih h.2⟩
+  | loop body ih => intro h; exact ih h
+  | _ => intro _; trivial
+
+/-- a value semantics on a linear order whose conditions mean what `PV.Props.C01.icCond` says -/
+def LinCond (sem : Sem Int) : Prop := ∀ c a b, sem.cond c [a, b] = (PV.Props.C01.icCond c a b).getD false
+
+/-- **the suffix pairs the regenerated tables yield negate each other** (plain and under `not`) -/
+theorem real_pairs_negate (sem : Sem Int) (h : LinCond sem) :
+    ∀ p ∈ PV.Flatten.branchPairs, ∀ x y, sem.cond p.2 [x, y] = !sem.cond p.1 [x, y] := by
+  have e : PV.Flatten.branchPairs = [("eq", "ne"), ("ne", "eq"), ("lt", "ge"), ("le", "gt"), ("gt", "le"), ("ge", "lt"),
+      ("ne", "eq"), ("eq", "ne"), ("ge", "lt"), ("gt", "le"), ("le", "gt"), ("lt", "ge")] := by decide
+  rw [e]
+  have h' : ∀ c a b, sem.cond c [a, b] = (PV.Props.C01.icCond c a b).getD false := h
+  intro p hp x y
+  simp only [List.mem_cons, List.mem_nil_iff, or_false] at hp
+  rcases hp with rfl | rfl | rfl | rfl | rfl | rfl | rfl | rfl | rfl | rfl | rfl | rfl <;>
+    simp only [h', PV.Props.C01.icCond, Option.getD_some] <;> rw [Bool.eq_iff_iff] <;> simp <;> omega
+
+/-- the two together: a core program whose branches come from the real tables satisfies the hypothesis of the theorems -/
+theorem negOk_of_real_tables (sem : Sem Int) (h : LinCond sem) (p : Stmt Int) (hp : pairsOk PV.Flatten.branchPairs p = true) :
+    NegOk sem p :=
+  pairsOk_sound sem _ (real_pairs_negate sem h) p hp
+
 /-! non-vacuity: a counting loop with a device write, on integers -/
 def intSem : Sem Int :=
   { alu := fun _ vs => match vs with | [a, b] => a + b | _ => 0,
@@ -80,7 +123,7 @@ def demo : Stmt Int :=
 
 example : NegOk intSem demo := by
   refine ⟨trivial, ?_, trivial, trivial⟩
-  intro vals
+  intro x y
   simp [intSem]
 
 /-- line numbers are representable in this value domain (the hypothesis `hlit` of the theorems) -/
